@@ -7,7 +7,7 @@ from pdb2sql import many2sql
 ID = 'C19'
 LEVEL = 'proof'
 CLUSTER = 'B'
-GEN_UNITS = ['Consts']
+GEN_UNITS = ['Consts', 'sql_runtime', 'sql_intersection_query', 'sql_intersection_ncol', 'sql_intersection_split']
 RULE = ('2-4 structures derived from a common parent (3-10 residues x 1-4 atoms, keys name/resName/resSeq/chainID unique) by '
         'independent deletions of atoms, coordinate / temperature / serial changes and record permutations; x every non-empty subset '
         'independent POINT MUTATIONS (a whole residue renamed in one structure); x every non-empty subset of the match attributes '
@@ -18,7 +18,13 @@ RULE = ('2-4 structures derived from a common parent (3-10 residues x 1-4 atoms,
         'SORTED lists of aligned tuples (one row per structure): SQL row order without ORDER BY is unspecified and never relied upon. '
         'Point mutants and moved atoms make keys without resName / with a coordinate select a different atom set than the default key, '
         'so intersect(match=...) is distinguished from intersect(). Non-trivial: the intersection is a proper non-empty subset of some '
-        'structure.')
+        'structure. '
+        'SQL TEXT TIE (extra checks): the statement text get_intersection() / intersect() hand to self.conn.execute (recorded by a proxy '
+        'around db.conn in the harness) is compared with the text of the TRANSLATED builder (Gen/Sql.lean intersection_query; driver op '
+        'sql_intersection) for 1-4 structures under default and user-chosen table names, every column list incl. "*", match lists incl. the '
+        'empty one and unknown names; the recorded statement is evaluated by MicroSql (op sql_query) and compared with sqlite3 as SORTED rows; '
+        'the rows sqlite3 returns are cut by the TRANSLATED post-processing (intersection_split with intersection_ncol) and compared with '
+        'what get_intersection() returns.')
 ASSUMPTIONS = ['SQLite INNER JOIN ... ON = nested-loop join filtered by the ON clause (order unspecified)']
 TRUSTED = ['intersect(): the Model driver runs Model.intersect with the concrete round trip Model.textRoundtrip; the Spec driver uses the '
            'round trip on representable values (model number reset)']
@@ -258,9 +264,116 @@ def _holds(r, sel):
     return True
 
 
+# ---------------------------------------------------------------------------------------------------------------------
+# the SQL text tie: the statement get_intersection() / intersect() send vs the translated builder; MicroSql vs sqlite3
+# ---------------------------------------------------------------------------------------------------------------------
+
+class ConnRecorder:
+    """a recording proxy around the sqlite3 connection of a many2sql object (in the harness; /repo is not touched)"""
+
+    def __init__(self, conn):
+        self._conn = conn
+        self.log = []
+
+    def execute(self, sql, *params):
+        self.log.append((sql, [list(p) for p in params]))
+        return self._conn.execute(sql, *params)
+
+    def __getattr__(self, name):
+        return getattr(self._conn, name)
+
+
+def recorded_conn(db, f):
+    real = db.conn
+    rec = ConnRecorder(real)
+    db.conn = rec
+    try:
+        out = call(f)
+    finally:
+        db.conn = real
+    return out, [e for e in rec.log if e[0].startswith('select ')]
+
+
+def sql_text_checks(ctx):
+    import vlib
+    rng = ctx.rng
+    subsets = [list(s) for r in range(0, 5) for s in itertools.combinations(MATCHABLE, r)]
+    more = [['serial'], ['name', 'resSeq', 'chainID', 'x'], ['element', 'name'], ['foo'], ['name', 'bar'], ['NAME', 'resSeq']]
+    columns = ['*', 'x,y,z', 'serial', 'name,resSeq,chainID', 'serial,x', 'temp,name', 'chainID', 'x,foo', 'zz', 'Name,x']
+    lines1, meta = [], []
+    for f in range(ctx.scale(14, 90)):
+        p = parent(rng)
+        ns = rng.choice([1, 2, 2, 3, 4])
+        # small structures: a match list that is empty or a single attribute makes the join a (near) cross product
+        cap = {1: 12, 2: 10, 3: 7, 4: 5}[ns]
+        tables = [child(rng, p)[:cap] for _ in range(ns)]
+        names = ['ATOM'] + ['ATOM%d' % i for i in range(1, ns)]
+        if f % 2 == 1:
+            names = rng.sample(['wildtype', 'mutant', 'apo', 'Zeta', 'b2', 'ATOM9', 'model_10', 'holo'], ns)
+        default = f % 2 == 0
+        lines = [[B.atom_line(r) for r in t] for t in tables]
+        db = call(lambda: many2sql(lines) if default else many2sql(lines, tablenames=list(names)))
+        if is_err(db):
+            continue
+        dbj = db_json(list(zip(names, tables)))
+        for k in range(ctx.scale(10, 24)):
+            m = rng.choice(subsets + more)
+            how = 'intersect' if rng.random() < 0.25 else 'get_intersection'
+            col = '*' if how == 'intersect' else rng.choice(columns)
+            if how == 'intersect':
+                out, stm = recorded_conn(db, lambda: db.intersect(match=list(m)))
+            else:
+                out, stm = recorded_conn(db, lambda: db.get_intersection(col, match=list(m)))
+            real_names = call(lambda: db._get_table_names())
+            case = {'op': 'sql_intersection', 'names': real_names, 'column': col, 'match': m}
+            text = stm[0][0] if len(stm) == 1 else None
+            raw = call(lambda: canon(db.conn.execute(text).fetchall())) if text is not None else None
+            lines1.append(case)
+            lines1.append({'op': 'sql_query', 'db': dbj, 'text': text or '', 'params': []})
+            meta.append({'case': case, 'how': how, 'names': names, 'real_names': real_names, 'sent': [e[0] for e in stm], 'raw': raw,
+                         'out': out if is_err(out) else (canon(out) if how == 'get_intersection' else 'db'), 'ntable': len(real_names) if isinstance(real_names, list) else 0})
+    ans = vlib.run_driver(lines1, which='model', cluster=CLUSTER) if lines1 else []
+    res = []
+    bad_text = bad_names = bad_micro = None
+    nq = disc = 0
+    lines2, meta2 = [], []
+    for i, mt in enumerate(meta):
+        a_text, a_rows = ans[2 * i].get('model'), ans[2 * i + 1].get('model')
+        want = a_text.get('text') if isinstance(a_text, dict) else a_text
+        if mt['real_names'] != mt['names'] and bad_names is None:
+            bad_names = {'tablenames given': mt['names'], '_get_table_names()': mt['real_names']}
+        if mt['sent'] != [want] and bad_text is None:
+            bad_text = {'case': mt['case'], 'call': mt['how'], 'real code sends': mt['sent'], 'translated builder': want}
+        if mt['raw'] is None:
+            continue
+        if isinstance(a_rows, str) and a_rows.startswith('ERR:UNMODELLED'):
+            disc += 1
+        else:
+            nq += 1
+            srt = lambda x: x if isinstance(x, str) else sorted(x, key=lambda r: json.dumps(r, sort_keys=True))
+            if srt(a_rows) != srt(mt['raw']) and bad_micro is None:
+                bad_micro = {'statement': mt['sent'][0], 'sqlite3 (sorted)': short(srt(mt['raw'])), 'MicroSql (sorted)': short(srt(a_rows))}
+        if mt['how'] == 'get_intersection' and isinstance(mt['raw'], list) and isinstance(a_text, dict):
+            lines2.append({'op': 'sql_intersection_split', 'rows': mt['raw'], 'ntable': mt['ntable'], 'ncol': a_text['ncol']})
+            meta2.append(mt)
+    res.append({'name': f'SQL text of get_intersection / intersect: real code = translated builder ({len(meta)} calls)', 'ok': bad_text is None and len(meta) > 40,
+                'case': bad_text, 'detail': 'Gen/Sql.lean intersection_query vs the statement recorded at the sqlite3 connection', 'kind': 'sql-text'})
+    res.append({'name': 'table names are listed in input order', 'ok': bad_names is None, 'case': bad_names, 'detail': '', 'kind': 'sql-text'})
+    res.append({'name': f'MicroSql = sqlite3 on every recorded join statement, as sorted rows ({nq} statements, {disc} outside the model)',
+                'ok': bad_micro is None and nq > 40, 'case': bad_micro, 'detail': 'Model/MicroSql.lean execJoin is the SQLite contract of Props/C19K', 'kind': 'microsql'})
+    ans2 = vlib.run_driver(lines2, which='model', cluster=CLUSTER) if lines2 else []
+    bad = None
+    for mt, a in zip(meta2, ans2):
+        if a.get('model') != mt['out'] and bad is None:
+            bad = {'case': mt['case'], 'get_intersection returns': short(mt['out']), 'translated cutting of the same rows': short(a.get('model'))}
+    res.append({'name': f'cutting of the joined rows: get_intersection = translated intersection_split with intersection_ncol ({len(meta2)} calls)',
+                'ok': bad is None and len(meta2) > 20, 'case': bad, 'detail': 'Gen/Sql.lean intersection_split / intersection_ncol', 'kind': 'sql-text'})
+    return res
+
+
 def extra_checks(ctx):
     rng = ctx.rng
-    res = []
+    res = sql_text_checks(ctx)
     fams = []
     for k in range(ctx.scale(6, 40)):
         p = parent(rng)
